@@ -228,9 +228,11 @@ func c20Check(c *hist.Case, r *evid.Rec) []evid.Disc {
 				}
 			}
 			if delivered && last != nil {
+				// one entry per unacknowledged transmission: the same message can be outstanding twice (live copy and a
+				// retained replay on a re-subscribe), under two packet identifiers
 				for _, in := range last.In {
 					if in.Tag == tag && in.Stage == 0 {
-						acked, pid = false, in.PID
+						owed = append(owed, ent{tag, in.PID})
 					}
 				}
 			} else if _, online := sn.Connected[cid]; !delivered && !online {
@@ -261,8 +263,8 @@ func c20Check(c *hist.Case, r *evid.Rec) []evid.Disc {
 				}
 				var g *refmqtt.Packet
 				for i, pk := range p.Got {
-					if pk.Type == refmqtt.PUBLISH && hist.TagOf(pk.Payload) == e.tag && p.GotStep[i] == ce.AckStep {
-						g = pk
+					if pk.Type == refmqtt.PUBLISH && hist.TagOf(pk.Payload) == e.tag && p.GotStep[i] == ce.AckStep && (g == nil || pk.PacketID == e.pid) {
+						g = pk // prefer the resend that carries the identifier of this very transmission
 					}
 				}
 				switch {
